@@ -38,8 +38,13 @@ def _sources(case):
         # give each source its epochs in a scrambled order too
         if case.get("scramble"):
             sl = sl[::-1]
-        srcs.append(RVData(Time([tt[j] for j in sl], format="mjd", scale="tcb"), [vv[j] for j in sl] * u.km / u.s,
-                           [ee[j] for j in sl] * u.km / u.s))
+        if case.get("mixed") and k % 2 == 1:
+            # this survey is delivered in other (equivalent) units: velocities in m/s, errors in cm/s
+            srcs.append(RVData(Time([tt[j] for j in sl], format="mjd", scale="tcb"), [vv[j] * 1000.0 for j in sl] * u.m / u.s,
+                               [ee[j] * 1e5 for j in sl] * u.cm / u.s))
+        else:
+            srcs.append(RVData(Time([tt[j] for j in sl], format="mjd", scale="tcb"), [vv[j] for j in sl] * u.km / u.s,
+                               [ee[j] for j in sl] * u.km / u.s))
     return srcs, tt, vv, ee
 
 
@@ -98,8 +103,8 @@ def run_case(case, part):
     interleaved = any(case["assign"][j] > case["assign"][j + 1] for j in range(n - 1)) or case["order"] != sorted(case["order"])
     part.record(case, outcome=(tuple(np.round(trend_M.ravel(), 3)),), nontrivial=bool(interleaved and S > 1))
     # 1. merged = union of inputs
-    got = sorted(zip(np.round(t, 9).tolist(), v.tolist(), e.tolist()))
-    want = sorted(zip(np.round(tt, 9).tolist(), vv, ee))
+    got = sorted(zip(np.round(t, 9).tolist(), np.round(v, 9).tolist(), np.round(e, 9).tolist()))
+    want = sorted(zip(np.round(tt, 9).tolist(), np.round(vv, 9).tolist(), np.round(ee, 9).tolist()))
     if got != want:
         part.violation(case, "merged data set is not the union of the input observations", expected=want, observed=got)
         return
@@ -107,7 +112,7 @@ def run_case(case, part):
         part.violation(case, "ids / design matrix have the wrong shape", observed=(len(ids), trend_M.shape))
         return
     # 2. each merged row -> owning survey (by its unique velocity tag)
-    owner = [case["assign"][vv.index(x)] for x in v.tolist()]
+    owner = [case["assign"][int(np.argmin(np.abs(np.array(vv) - x)))] for x in v.tolist()]
     # 3. offset columns: indicator of exactly one survey each; exactly one survey is offset-free
     if not np.array_equal(trend_M[:, 0], np.ones(n)):
         part.violation(case, "constant column of the design matrix is not all ones", observed=trend_M[:, 0])
@@ -158,6 +163,9 @@ def run_case(case, part):
         pr = dict(kind="default", sigma_K0=30.0, P0=365.25, max_K=500.0, mu=np.zeros(1 + S), sig=np.array([0, 60.0] + [3.0 + 2 * k for k in range(1, S)]))
         pb = marginal.Problem(tt, vv, ee, min(tt), labels, 1, S - 1, pr)
         ref = pb.lnL(THETA, dtype=np.longdouble).astype(float)
+        if case.get("mixed") and case["order"][0] % 2 == 1:
+            # the merged data take the unit of the first listed source (m/s here): the density picks up the Jacobian
+            ref = ref - n * np.log(1000.0)
         if not np.all(np.abs(ll - ref) <= 1e-7 * (1 + np.abs(ref))):
             part.violation(case, "marginal_ln_likelihood of multi-survey data != likelihood of the correctly labelled data",
                            expected=ref, observed=ll)
@@ -185,6 +193,8 @@ def build_cases(quick, seed):
                             # likelihood part only on a sub-product (cost): list+dict_str, unscrambled
                             lnl = (not scr) and form in ("list", "dict_str") and (n <= 4 or not quick)
                             cases.append(dict(assign=list(f), order=list(order), form=form, scramble=scr, jit=jit, lnl=lnl))
+                            if lnl and S > 1:
+                                cases.append(dict(assign=list(f), order=list(order), form=form, scramble=scr, jit=jit, lnl=lnl, mixed=True))
     # identical epochs in two surveys
     for S in (2, 3):
         for n in (S, S + 1, 4):
